@@ -853,7 +853,6 @@ pub open spec fn gp_mulHs_entry(c: GenPowerCone<F>, x: Seq<F>, i: int) -> F {
 }
 // the trial point q + a*dq as `work.waxpby(1, q, a, dq)` forms it
 pub open spec fn shifted(q: Seq<F>, dq: Seq<F>, a: F) -> Seq<F> { Seq::new(q.len(), |i: int| f_add(f_mul(f_one(), q[i]), f_mul(a, dq[i]))) }
-pub uninterp spec fn gp_barrier_dual(al: Seq<F>, z: Seq<F>) -> F;
 // everything but the two scratch vectors is the same
 pub open spec fn gp_same_but_scratch(c1: GenPowerCone<F>, c0: GenPowerCone<F>) -> bool {
     &&& c1.alpha@ == c0.alpha@ && c1.dim2 == c0.dim2
@@ -929,12 +928,13 @@ impl GenPowerCone<F> {
     // ASSUMED callees.  update_dual_grad_H (fold / izip arithmetic) rewrites grad, p, q, r, d1, d2 and nothing else; it contains
     // `assert!(zeta > 0)` - see the header (open item).  The barriers return uninterpreted functions of (alpha, point); barrier_primal
     // uses work_pb as scratch space.
-    #[verifier::external_body] pub fn update_dual_grad_H(&mut self, z: &[F])
+//@fn file=src/solver/core/cones/genpowcone.rs in="NonsymmetricCone<T> for GenPowerCone<T>" name=update_dual_grad_H rules=R1,R2,R24,R15:grad|data.p,zipidx:1=ii;2=mmii;3=miii
+//@contract
         requires gp_wf(*old(self)), z@.len() == gp_dim(*old(self)),
         ensures gp_wf(*final(self)), final(self).alpha@ == old(self).alpha@, final(self).dim2 == old(self).dim2,
             final(self).data.z@ == old(self).data.z@, final(self).data.mu == old(self).data.mu, final(self).data.psi == old(self).data.psi,
             final(self).data.work@ == old(self).data.work@, final(self).data.work_pb@ == old(self).data.work_pb@,
-    { unimplemented!() }
+//@end
     // the whole gradient_primal: ASSUMED to be its verified tail slice (gradient_primal_tail below) run with phi = gp_phi_spec
     #[verifier::external_body] pub fn gradient_primal(&self, g: &mut [F], s: &[F])
         requires old(g)@.len() == gp_dim(*self), s@.len() == gp_dim(*self),
@@ -949,10 +949,17 @@ impl GenPowerCone<F> {
 //@before "let out ="
         proof { assert(g@ =~= seq_neg(gp_gradient_primal(self.alpha@, self.data.psi, s@))); }
 //@end
-    #[verifier::external_body] pub fn barrier_dual(&mut self, z: &[F]) -> (r: F)
-        requires z@.len() == gp_dim(*old(self)),
-        ensures r == gp_barrier_dual(old(self).alpha@, z@), *final(self) == *old(self),
-    { unimplemented!() }
+//@fn file=src/solver/core/cones/genpowcone.rs in="NonsymmetricCone<T> for GenPowerCone<T>" name=barrier_dual rules=R1,R2,zipidx:1=ii;2=ii ret=r
+//@contract
+    requires z@.len() == gp_dim(*old(self)),
+    ensures r == gp_barrier_dual(old(self).alpha@, z@), *final(self) == *old(self),
+//@loop 1
+            invariant r14_n1 == dim1, r14_lo1_0 == 0, dim1 == gp_dim1(*self), alpha@ == self.alpha@, z@.len() >= dim1, two == lit2(), *self == *old(self),
+                res == gp_logsum_dual(self.alpha@, z@, r14_i1 as int),
+//@loop 2
+            invariant r14_n2 == dim1, r14_lo2_0 == 0, dim1 == gp_dim1(*self), alpha@ == self.alpha@, z@.len() >= dim1, *self == *old(self),
+                barrier == gp_barrier_fold(self.alpha@, z@, r14_i2 as int),
+//@end
 
 //@fn file=src/solver/core/cones/genpowcone.rs in="Cone<T> for GenPowerCone<T>" name=unit_initialization rules=R1,R2
 //@contract
@@ -1098,12 +1105,13 @@ pub open spec fn trial_at(w: Seq<F>, q: Seq<F>, dq: Seq<F>, a: F) -> bool {
 pub open spec fn trial_rejected<FN: Fn(&[F]) -> bool>(f: FN, q: Seq<F>, dq: Seq<F>, a: F) -> bool {
     exists|w: &[F]| trial_at(w@, q, dq, a) && f.ensures((w,), false)
 }
-// ASSUMED (PROVED in unit `steplen` from the real body, same contract text): backtrack_search
-#[verifier::external_body]
-pub fn backtrack_search<FN: Fn(&[F]) -> bool>(dq: &[F], q: &[F], alpha_init: F, alpha_min: F, step: F, is_in_cone_fcn: FN, work: &mut [F]) -> (r: F)
+// backtrack_search (nonsymmetric_common.rs), real body: second copy of the proof in unit `steplen`, with ONE difference - the membership
+// closure only has to accept vectors of the length of q (it is only ever called on `work`); the gen-power tests slice `s[..dim1]`
+//@fn file=src/solver/core/cones/nonsymmetric_common.rs name=backtrack_search rules=R1,R2 ret=r attrs="#[verifier::exec_allows_no_decreases_clause]"
+//@contract
     requires
         old(work)@.len() == q@.len(), q@.len() == dq@.len(),
-        forall|w: &[F]| #![trigger is_in_cone_fcn.requires((w,))] is_in_cone_fcn.requires((w,)),
+        forall|w: &[F]| #![trigger is_in_cone_fcn.requires((w,))] w@.len() == q@.len() ==> is_in_cone_fcn.requires((w,)),
     ensures
         final(work)@.len() == old(work)@.len(),
         (r == f_zero() && exists|prev: F| #[trigger] trial_rejected(is_in_cone_fcn, q@, dq@, prev) && f_lt(f_mul(prev, step), alpha_min)) || ({
@@ -1111,16 +1119,84 @@ pub fn backtrack_search<FN: Fn(&[F]) -> bool>(dq: &[F], q: &[F], alpha_init: F, 
             &&& forall|i: int| 0 <= i < q@.len() ==> #[trigger] final(work)@[i] == f_add(f_mul(f_one(), q@[i]), f_mul(r, dq@[i]))
             &&& (r == alpha_init || exists|prev: F| r == f_mul(prev, step) && #[trigger] trial_rejected(is_in_cone_fcn, q@, dq@, prev))
         }),
-{ unimplemented!() }
-pub uninterp spec fn gp_in_primal(al: Seq<F>, s: Seq<F>) -> bool;
-pub uninterp spec fn gp_in_dual(al: Seq<F>, z: Seq<F>) -> bool;
+//@loop 1
+        invariant_except_break
+            alpha == alpha_init || exists|prev: F| alpha == f_mul(prev, step) && #[trigger] trial_rejected(is_in_cone_fcn, q@, dq@, prev),
+        invariant
+            work@.len() == q@.len(), q@.len() == dq@.len(),
+            forall|w: &[F]| #![trigger is_in_cone_fcn.requires((w,))] w@.len() == q@.len() ==> is_in_cone_fcn.requires((w,)),
+        ensures
+            work@.len() == q@.len(),
+            (alpha == f_zero() && exists|prev: F| #[trigger] trial_rejected(is_in_cone_fcn, q@, dq@, prev) && f_lt(f_mul(prev, step), alpha_min)) || ({
+                &&& is_in_cone_fcn.ensures((&*work,), true)
+                &&& forall|i: int| 0 <= i < q@.len() ==> #[trigger] work@[i] == f_add(f_mul(f_one(), q@[i]), f_mul(alpha, dq@[i]))
+                &&& (alpha == alpha_init || exists|prev: F| alpha == f_mul(prev, step) && #[trigger] trial_rejected(is_in_cone_fcn, q@, dq@, prev))
+            }),
+//@before "alpha *= step;"
+        let ghost a_prev = alpha;
+        proof {
+            let w: &[F] = &*work;
+            assert(trial_rejected(is_in_cone_fcn, q@, dq@, a_prev)) by {
+                assert(trial_at(w@, q@, dq@, a_prev));
+            }
+        }
+//@end
+// Generalised power cone (the n-dimensional form of the definitions quoted in powcone.rs; supportedcone.rs: "powers alpha of the left-hand
+// side", "2-norm bounded vector in the right-hand side"), u = x[..dim1], w = x[dim1..]:
+//   primal  K  = { (u, w) : prod_i u_i^alpha_i >= |w|_2, u >= 0 },      dual  K* = { (u, w) : prod_i (u_i/alpha_i)^alpha_i >= |w|_2, u >= 0 }.
+// The tests are strict, squared and taken through exp / log:  every u_i > 0  and  exp(sum_i 2 alpha_i log(u_i)) - |w|^2 > 0
+// (dual: log(u_i/alpha_i)).  The sum is the left fold the code performs; |w|^2 is VectorMath::sumsq of the tail.
+pub open spec fn gp_all_pos(x: Seq<F>, n: int) -> bool { forall|k: int| 0 <= k < n ==> f_lt(f_zero(), #[trigger] x[k]) }
+pub open spec fn gp_logsum_primal(al: Seq<F>, x: Seq<F>, k: int) -> F decreases k {
+    if k <= 0 { f_zero() } else { f_add(gp_logsum_primal(al, x, k - 1), f_mul(f_mul(lit2(), al[k - 1]), logsafe_spec(x[k - 1]))) }
+}
+pub open spec fn gp_logsum_dual(al: Seq<F>, x: Seq<F>, k: int) -> F decreases k {
+    if k <= 0 { f_zero() } else { f_add(gp_logsum_dual(al, x, k - 1), f_mul(f_mul(lit2(), al[k - 1]), logsafe_spec(f_div(x[k - 1], al[k - 1])))) }
+}
+pub open spec fn gp_tail(x: Seq<F>, dim1: int) -> Seq<F> { x.subrange(dim1, x.len() as int) }
+pub open spec fn gp_in_primal(al: Seq<F>, s: Seq<F>) -> bool {
+    gp_all_pos(s, al.len() as int) && f_lt(f_zero(), f_sub(f_exp(gp_logsum_primal(al, s, al.len() as int)), vm_sumsq(gp_tail(s, al.len() as int))))
+}
+// res = exp(sum) - |w|^2 of the dual form (shared by the dual test and the dual barrier)
+pub open spec fn gp_dual_res(al: Seq<F>, z: Seq<F>) -> F { f_sub(f_exp(gp_logsum_dual(al, z, al.len() as int)), vm_sumsq(gp_tail(z, al.len() as int))) }
+pub open spec fn gp_in_dual(al: Seq<F>, z: Seq<F>) -> bool { gp_all_pos(z, al.len() as int) && f_lt(f_zero(), gp_dual_res(al, z)) }
+// Dual barrier: f*(z) = -log(prod (z_i/alpha_i)^(2 alpha_i) - |w|^2) - sum_i (1 - alpha_i) log z_i, the second sum subtracted term by term
+pub open spec fn gp_barrier_fold(al: Seq<F>, z: Seq<F>, k: int) -> F decreases k {
+    if k <= 0 { f_neg(logsafe_spec(gp_dual_res(al, z))) } else { f_sub(gp_barrier_fold(al, z, k - 1), f_mul(logsafe_spec(z[k - 1]), f_sub(f_one(), al[k - 1]))) }
+}
+pub open spec fn gp_barrier_dual(al: Seq<F>, z: Seq<F>) -> F { gp_barrier_fold(al, z, al.len() as int) }
 impl GenPowerCone<F> {
-    // the membership tests (all / zip / fold arithmetic over exp, log) are uninterpreted here: DROPPED as bodies, see the header
     // (functions of what the tests read: the powers alpha - whose length is dim1 - and the point)
     pub open spec fn in_primal(&self, s: Seq<F>) -> bool { gp_in_primal(self.alpha@, s) }
     pub open spec fn in_dual(&self, z: Seq<F>) -> bool { gp_in_dual(self.alpha@, z) }
-    #[verifier::external_body] pub fn is_primal_feasible(&self, s: &[F]) -> (b: bool) ensures b == self.in_primal(s@) { unimplemented!() }
-    #[verifier::external_body] pub fn is_dual_feasible(&self, z: &[F]) -> (b: bool) ensures b == self.in_dual(z@) { unimplemented!() }
+//@fn file=src/solver/core/cones/genpowcone.rs in="NonsymmetricCone<T> for GenPowerCone<T>" name=is_primal_feasible rules=R1,R2,R21,R24,R5,zipidx:2=ii ret=b
+//@contract
+    requires s@.len() >= gp_dim1(*self),      // `s[..dim1]`; call sites pass vectors of length numel()
+    ensures b == self.in_primal(s@),
+//@iter 1
+it
+//@loop 1
+            invariant it.seq().len() == dim1, dim1 == gp_dim1(*self), s@.len() >= dim1,
+                forall|i: int| 0 <= i < dim1 ==> *(#[trigger] it.seq()[i]) == s@[i],
+                r21_k1 == gp_all_pos(s@, it.index@ as int),
+//@loop 2
+            invariant r14_n1 == dim1, r14_lo1_1 == 0, dim1 == gp_dim1(*self), alpha@ == self.alpha@, s@.len() >= dim1, two == lit2(),
+                res == gp_logsum_primal(self.alpha@, s@, r14_i1 as int),
+//@end
+//@fn file=src/solver/core/cones/genpowcone.rs in="NonsymmetricCone<T> for GenPowerCone<T>" name=is_dual_feasible rules=R1,R2,R21,R24,R5,zipidx:2=ii ret=b
+//@contract
+    requires z@.len() >= gp_dim1(*self),
+    ensures b == self.in_dual(z@),
+//@iter 1
+it
+//@loop 1
+            invariant it.seq().len() == dim1, dim1 == gp_dim1(*self), z@.len() >= dim1,
+                forall|i: int| 0 <= i < dim1 ==> *(#[trigger] it.seq()[i]) == z@[i],
+                r21_k1 == gp_all_pos(z@, it.index@ as int),
+//@loop 2
+            invariant r14_n1 == dim1, r14_lo1_1 == 0, dim1 == gp_dim1(*self), alpha@ == self.alpha@, z@.len() >= dim1, two == lit2(),
+                res == gp_logsum_dual(self.alpha@, z@, r14_i1 as int),
+//@end
 //@fn file=src/solver/core/cones/genpowcone.rs in="Cone<T> for GenPowerCone<T>" name=step_length rules=R1,R2 ret=r
 //@contract
     requires gp_wf(*old(self)), dz@.len() == gp_dim(*old(self)), ds@.len() == gp_dim(*old(self)), z@.len() == gp_dim(*old(self)), s@.len() == gp_dim(*old(self)),
@@ -1137,10 +1213,10 @@ impl GenPowerCone<F> {
             && (r.1 == f_mul(prev, settings.linesearch_backtrack_step) || (r.1 == f_zero() && f_lt(f_mul(prev, settings.linesearch_backtrack_step), settings.min_terminate_step_length))),
 //@closure 1
 =
-(b: bool) ensures b == self.in_primal(s@)
+(b: bool) requires s@.len() >= self.alpha@.len() ensures b == self.in_primal(s@)
 //@closure 2
 =
-(b: bool) ensures b == self.in_dual(s@)
+(b: bool) requires s@.len() >= self.alpha@.len() ensures b == self.in_dual(s@)
 //@after "let alphaz = backtrack_search("
         let ghost wz = work@;
 //@after "let alphas = backtrack_search("
